@@ -30,6 +30,17 @@ func notClaimed() [][2]string {
 func props() []prop {
 	return []prop{
 		{
+			ID: "C15", Level: "differential_monitoring",
+			LevelText:   "Differential runtime monitor on two real systems connected over loopback TCP: every scenario of the operation matrix (Tell, tell-back, Ask x {reply, none, twice, error, custom, user-codec}, Kill x {system, poison}, Ping, PipeTo / Future.PipeTo x {success, timeout, error} to a local and a remote forwarder, Watch / double Watch / two watchers / Unwatch, scheduler Once / Loop+Cancel) x {ActorContext, ActorSystem} x {no user codec, user codec} is executed with a local and with a remote target; every participant's observation log (contents, senders with address check, OnKill/OnKilled fields, PipeResult, outcomes, final liveness) must be equal role by role.",
+			LevelNote:   "The oracle is the local run of the same scenario (no hand-written expectation), so a behaviour that is equally wrong locally and remotely is not reported here (the local semantics are C03-C09). Real time is used only to wait for quiescence of the logs; timeouts inside scenarios (700 ms Ask) are far above loopback latency, and a difference must reproduce in a second run to be reported.",
+			Technique:   "differential monitoring (local run vs remote run of the same scenario on real systems), observation logs compared offline",
+			DesignRef:   "DESIGN.md §4 C15",
+			Assumptions: with("loopback TCP; one user codec (binary-safe)"),
+			Units: []unit{
+				{Check: "transparency", Pkg: "internal/actor", Shards: [2]int{8, 8}, Timeout: [2]time.Duration{10 * min, 20 * min}, CrashKey: "c15-crash", OnlyKinds: []string{"c15-", "harness-"}},
+			},
+		},
+		{
 			ID: "C14", Level: "fault_enumeration",
 			LevelText:   "Connection faults are enumerated against real systems on loopback: the proxy cuts the stream after exactly k bytes for every 8th (thorough: every) byte offset of a handshake + 5-frame stream x reconnect limits, then heals; connections refused for the whole retry budget; a raw client injects undecodable / truncated / unknown-name / oversize / zero-length frames in front of valid frames on one connection; an unframeable 5 MiB payload between normal messages; peer stop and restart on the same address. Deciding monitors: subsequence/CRC monitor at the receiving behaviour, recovery monitor (after the first delivery over the healed link nothing is lost any more), dead-letter ledger on the sender, and a goroutine-stack witness (a logical observation, no timing) for 'Tell blocks its caller in the reconnect loop'.",
 			LevelNote:   "Trusted: loopback TCP; the first write after a peer-side close can be accepted by the kernel and lost (TCP semantics): the recovery clause therefore starts at the first post-heal delivery. Bounded-progress restatement of 'later messages are delivered': within 12 sends 15 ms apart.",
